@@ -241,6 +241,7 @@ def run(ctx):
     # a directive number parses to the same value whatever was parsed before it (shared with C14 D20)
     import importlib as _il15
     _il15.import_module("rules.c14").errno_cleared_before_judged(db, rep, "D14-ERRNO-CLEARED")
+    d15_narrow_constant_is_int(db, rep)
 
     # ---- D4: the synthetic name of an inline literal identifies the literal ----------------------------
     # orc_program_append_str_n finds operands BY NAME.  The name made up for an inline literal must therefore be an
@@ -724,3 +725,38 @@ def d13_declared_name_first(db, rep, rule="D13-DECLARED-NAME-FIRST"):
                   "named `inf`, `nan` or `infinity` is silently replaced by a float constant (`addf d1, inf, s2` adds +infinity), and one named `info` is "
                   "refused as a bad constant, while the API-built program uses the variables", line=c.line)
 
+
+
+def d15_narrow_constant_is_int(db, rep, rule="D15-NARROW-CONST-IS-INT"):
+    """D15: through the API a constant narrower than 8 bytes is an `int` (orc_program_add_constant (program, size, int value,
+    name)) - and so it is in the bytecode, which stores 4 bytes and sign-extends on reading.  The text constructor parses
+    with strtoll: `.const 4 c 0x80000000` would keep +2147483648 in the 64-bit value field where the API-built twin holds
+    INT_MIN, and a 64-bit opcode (`addq d, s, c`) computes different results for the two.  The value stored by
+    orc_program_add_constant_str for size < 8 must pass through a conversion to a signed 32-bit type before the slot is shared
+    or created."""
+    from widen import INT_TYPES
+    f = db.func("orc_program_add_constant_str", "orcprogram")
+    rep.saw(f)
+    fc = Facts(f)
+    narrows = []
+    for st in f.walk():
+        if st.k == "BinaryOperator" and st.op == "=" and (access_path(st.c[0]) or "").endswith(".value.i"):
+            r = st.c[1]
+            while r is not None and r.k in ("ParenExpr", "ImplicitCastExpr"):
+                r = r.c[0]
+            if r is not None and r.k == "CStyleCastExpr":
+                t = INT_TYPES.get((r.get("toty") or "").replace("const ", "").strip())
+                if t is not None and t[0] == 32 and t[1]:
+                    guarded = any(cd[0] != "switch" and "size" in unparse(cd[0]) for cd in fc.conds(st))
+                    if guarded:
+                        narrows.append(st)
+    finals = [r for r in f.walk() if r.k == "ReturnStmt" and r.c and r.c[0] is not None and strip_casts(r.c[0]).v is None and
+              not any(a.k in ("ForStmt", "WhileStmt", "IfStmt") for a in r.ancestors())]
+    if not finals:
+        raise AnalysisBroken("orc_program_add_constant_str: the return of the new slot was not found")
+    loops_ = [x for x in f.walk() if x.k in ("ForStmt", "WhileStmt")]
+    ok = bool(narrows) and all(any(nw.line < lp.line for nw in narrows) for lp in loops_ if "n_const_vars" in unparse(lp.c[1] if lp.k == "ForStmt" and len(lp.c) > 1 and lp.c[1] is not None else lp))
+    rep.check(ok, rule, where(f), "narrow-constant", "a constant narrower than 8 bytes is stored as the int the API and the bytecode make of it",
+              "orc_program_add_constant_str keeps the 64-bit result of strtoll for a constant of size < 8: `.const 4 c 0x80000000` holds +2147483648 where "
+              "orc_program_add_constant (int) and the bytecode reader hold -2147483648, and `addq d, s, c` differs between the parsed program and its "
+              "API-built or bytecode twin (generated C vs JIT/emulation in orcc's output)", line=finals[0].line)
